@@ -1019,3 +1019,107 @@ func (f *facts) srangeOf(t *term.Term) (srng, bool) {
 	}
 	return r, ok
 }
+
+// linDecomp writes a 64-bit term as sign*base + off (mod 2^64), peeling constant additions, subtractions from
+// constants and negations.
+func linDecomp(t *term.Term) (sign int64, base *term.Term, off uint64) {
+	switch t.Op {
+	case term.OAdd:
+		for i := 0; i < 2; i++ {
+			if k := t.Args[i]; k.IsConst() {
+				s, b, o := linDecomp(t.Args[1-i])
+				return s, b, o + k.Val
+			}
+		}
+	case term.OSub:
+		if k := t.Args[1]; k.IsConst() {
+			s, b, o := linDecomp(t.Args[0])
+			return s, b, o - k.Val
+		}
+		if c := t.Args[0]; c.IsConst() {
+			s, b, o := linDecomp(t.Args[1])
+			return -s, b, c.Val - o
+		}
+	case term.ONeg:
+		s, b, o := linDecomp(t.Args[0])
+		return -s, b, -o
+	}
+	return 1, t, 0
+}
+
+// srangeLin is srangeOf sharpened by the signed bounds the guard states for any term with the same linear base:
+// a conjunct `lo <= X - c <= hi` also bounds `c' - X` and `(X + k) * 24`. Used by the time stubs and the float cut.
+func (f *facts) srangeLin(t *term.Term) (srng, bool) {
+	if t.Sort.K != term.KBV || t.W() != 64 {
+		return f.srangeOf(t)
+	}
+	if t.Op == term.OMul {
+		for i := 0; i < 2; i++ {
+			if k := t.Args[i]; k.IsConst() && k.SVal() > 0 {
+				if a, ok := f.srangeLin(t.Args[1-i]); ok {
+					lo, o1 := mulOv(a.lo, k.SVal())
+					hi, o2 := mulOv(a.hi, k.SVal())
+					if o1 && o2 {
+						return srng{lo, hi}, true
+					}
+				}
+			}
+		}
+		return f.srangeOf(t)
+	}
+	r, ok := f.srangeOf(t)
+	s2, b2, o2 := linDecomp(t)
+	seen := map[int]bool{}
+	for x := f; x != nil; x = x.parent {
+		for id := range x.sb {
+			if seen[id] {
+				continue
+			}
+			seen[id] = true
+			u := x.terms[id]
+			if u == nil || u.W() != 64 {
+				continue
+			}
+			s1, b1, o1 := linDecomp(u)
+			if b1 != b2 {
+				continue
+			}
+			sb, _ := f.getS(id)
+			var lo, hi int64
+			var g1, g2 bool
+			if s1 == s2 { // t = u + (o2 - o1)
+				d := int64(o2 - o1)
+				lo, hi, g1, g2 = -1<<63, 1<<63-1, true, true
+				if sb.lo != -1<<63 {
+					lo, g1 = addOv(sb.lo, d)
+				}
+				if sb.hi != 1<<63-1 {
+					hi, g2 = addOv(sb.hi, d)
+				}
+			} else { // t = -u + (o2 + o1); an open end of u stays open
+				e := int64(o2 + o1)
+				lo, hi, g1, g2 = -1<<63, 1<<63-1, true, true
+				if sb.hi != 1<<63-1 {
+					lo, g1 = addOv(-sb.hi, e)
+				}
+				if sb.lo != -1<<63 {
+					hi, g2 = addOv(-sb.lo, e)
+				}
+			}
+			if !g1 || !g2 {
+				continue
+			}
+			if !ok {
+				r, ok = srng{lo, hi}, true
+				continue
+			}
+			if lo > r.lo {
+				r.lo = lo
+			}
+			if hi < r.hi {
+				r.hi = hi
+			}
+		}
+	}
+	return r, ok
+}
